@@ -241,9 +241,11 @@ func (w *World) SetEpoch(offsetSeconds int) {
 
 // Note appends a line to the rendered workload.
 func (w *World) Note(format string, a ...interface{}) {
+	w.mu.Lock()
 	if len(w.Notes) < 400 {
 		w.Notes = append(w.Notes, fmt.Sprintf(format, a...))
 	}
+	w.mu.Unlock()
 }
 
 // Probe counts a "this rare condition was reached" event.
